@@ -3,19 +3,24 @@
 ROOT="$(realpath "${1:-/verif/refactors}")"; W="${2:-6}"
 export GOFLAGS=-mod=mod GOPROXY=off GOSUMDB=off GOTOOLCHAIN=local GOWORK=off
 DV=$(mktemp /tmp/dcpverif.XXXXXX); cp /verif/bin/dcpverif "$DV"; chmod +x "$DV"
+rm -rf /tmp/dcpverif-scratch/lock.* 2>/dev/null
 trap 'rm -f "$DV"' EXIT
 one() {
   pf="$1"; ROOT="$2"; DV="$3"
-  D=$(mktemp -d /tmp/refrun.XXXXXX)
-  rsync -a --exclude .git /repo/ "$D/repo/"
-  (cd "$D/repo" && patch -p1 -s -f < "$pf") >/dev/null 2>&1 || { echo "$(echo $pf | sed "s#$ROOT/##") PATCH-FAILED"; rm -rf "$D"; return; }
+  # a fixed set of scratch directories (one per worker slot): unchanged packages then hit the Go build cache instead
+  # of filling it with one copy per run
+  SLOTS=/tmp/dcpverif-scratch; mkdir -p "$SLOTS"; k=0
+  while ! mkdir "$SLOTS/lock.$k" 2>/dev/null; do k=$(( (k+1) % 32 )); [ $k -eq 0 ] && sleep 0.2; done
+  D="$SLOTS/w$k"; rm -rf "$D"; mkdir -p "$D"
+  rsync -a --exclude .git /repo/ "$D/repo/"; case "$D" in /tmp/*) [ -f "$D/repo/go.mod" ] || { echo "scratch copy failed: $D" >&2; exit 9; };; *) echo "refusing to work outside /tmp: [$D]" >&2; exit 9;; esac
+  (cd "$D/repo" && patch -p1 -s -f < "$pf") >/dev/null 2>&1 || { echo "$(echo $pf | sed "s#$ROOT/##") PATCH-FAILED"; rm -rf "$D"; rmdir "$SLOTS/lock.$k"; return; }
   out=$("$DV" -prop all -repo "$D/repo" -out /verif -no-evidence 2>&1)
   n=$(echo "$out" | grep -c " obligations, ")
   fired=$(echo "$out" | grep -oE "^VIOLATION property=C[0-9]+" | sed 's/VIOLATION property=//' | tr '\n' ' ')
   rules=$(echo "$out" | grep -E "^\s+\[(violated|undecided)\]" | sed -E 's/^\s+\[(violated|undecided)\] ([^@]+).*/\2/' | sort -u | tr '\n' ';')
   res="silent"; [ -n "$fired" ] && res="ALARM"; [ "$n" -eq 20 ] || res="CHECKER-ERROR($n)"
   echo "$(echo $pf | sed "s#$ROOT/##") $res fired=[$fired] $rules"
-  rm -rf "$D"
+  rm -rf "$D"; rmdir "$SLOTS/lock.$k"
 }
 export -f one
 ls $ROOT/*/*.diff | sort | xargs -P "$W" -I{} bash -c 'one "$@"' _ {} "$ROOT" "$DV" | sort -V
